@@ -30,7 +30,7 @@ CLAIMED = {
          'DESIGN.md section 5 C01'),
  'C03': ('Machine-checked theorems (Lean 4, reals) about an executable model of class tm: every writer of the six-vector is coherent by construction; every writer of the matrix is coherent because '
          'exp3(log3 R) = R on all of SO(3) (proved for identity / generic / half-turn branches); SO(3) is closed under the operations; hence by induction over every operation history all objects stay '
-         'coherent and in SE(3), under the explicit side condition that no matrix handed to TMtoTAA has angle strictly inside (0,1e-6). Model tied to the real class by exhaustive + random differential histories; '
+         'coherent and in SE(3), under the explicit side condition that no matrix handed to TMtoTAA has angle strictly inside (0,1e-6); for a matrix inside that band the one-step loss is bounded: every entry of R - exp3(log3 R) is at most theta + theta^2/2 < 1e-6 (1 + 5e-7). Model tied to the real class by exhaustive + random differential histories; '
          'coherence itself is evaluated on the real objects after every step.',
          'Trusted: Lean kernel, Mathlib, harness op interpreter/generators; scipy from_quat and lstsq modelled by contract; rounding outside the theorems (near-pi precision loss of MatrixLog3 = known finding).',
          'Lean 4 invariant proof by induction over operation histories on a hand-written model + differential correspondence + on-object falsifier',
@@ -105,8 +105,8 @@ CLAIMED = {
          'Lean 4 induction over the joint chain (exp6 conjugation) + generated-document correspondence + on-arm falsifier',
          'DESIGN.md section 5 C13'),
  'C08': ('Partial proof: machine-checked theorems (Lean 4) about the Newton-Euler recursion modelled over lists of links of any length: superposition (a run with rates (qd, qdd_a+qdd_b), incoming acceleration and tip wrench sums equals the run carrying all velocity-product terms plus a linear zero-velocity run), '
-         'hence torque = M*qdd + c(q,qd) + g(q) + J^T F with the four terms defined as the library defines them (the recursion called with selected zeros), for every chain, state, gravity and tip wrench; and positive semi-definiteness of the closed form sum J_i^T G_i J_i. '
-         'The model is tied to fmr.InverseDynamics by a differential run. Symmetry/definiteness of MassMatrix itself, equality with the closed form, FD inverting ID, agreement of the Arm-level re-implementations, passivity, the gravity gradient and energy conservation are decided on the implementation (finite differences; labelled sampled).',
+         'hence torque = M*qdd + c(q,qd) + g(q) + J^T F with the four terms defined as the library defines them (the recursion called with selected zeros), for every chain, state, gravity and tip wrench; positive semi-definiteness of the closed form sum J_i^T G_i J_i; and for the recursion itself the virtual-work identity tau(a).b = sum_i (G_i Vdot_i(a)).Vdot_i(b) of the zero-velocity runs (induction over links), hence the mass matrix the recursion defines is symmetric when every link inertia is and a^T M a >= 0 when every link inertia is positive semi-definite, for chains of any length at every configuration. '
+         'The model is tied to fmr.InverseDynamics by a differential run. Equality of MassMatrix with the closed form, FD inverting ID, agreement of the Arm-level re-implementations, passivity, the gravity gradient and energy conservation are decided on the implementation (finite differences; labelled sampled).',
          'Trusted: Lean kernel, Mathlib, chain generators, independent link Jacobians and finite differences in the harness; np.linalg.inv is an oracle.',
          'Lean 4 induction over links (superposition of the Newton-Euler recursion) + differential correspondence + identity falsifier on the MR functions and Arm methods',
          'DESIGN.md section 5 C08'),
@@ -127,7 +127,7 @@ CLAIMED = {
  'C11': ('Partial proof: machine-checked theorems (Lean 4, Mathlib calculus) about the rows [q x n, n] built by SP.inverseJacobian and the wrench sum of SP.sumActuatorWrenches: the moment arm may be taken from either joint (t x n = b x n); '
          'row . twist is the leg-direction component of the top joint velocity, and the leg length along any differentiable path of the top joint whose velocity is that of a rigid motion with spatial twist V has derivative row . V (HasDerivAt); '
          'for any leg forces the summed leg wrench on the base is minus invJ^T tau (induction over legs), hence forces carrying W load the base with -W and map back to W. '
-         'The model functions are compared with the real methods; the derivative (Richardson), equilibrium, body-frame and carryMassCalc clauses are evaluated on real platforms at arbitrary placements (the last two sampled only).',
+         'The model functions are compared with the real methods; the body-frame interface equals the space-frame one on the frame-changed wrench ((Ad J)^T W_b = J^T (Ad^T W_b), for any Jacobian); the derivative (Richardson), equilibrium, body-frame and carryMassCalc clauses are also evaluated on real platforms at arbitrary placements (carryMassCalc bookkeeping and the inverse body map are sampled only).',
          'Trusted: Lean kernel, Mathlib, independent exp6/Ad/leg lengths in the harness; np.linalg.pinv is an oracle (inverse of an invertible matrix).',
          'Lean 4 proofs (vector algebra by certificates, HasDerivAt for the length derivative, induction over legs) + differential correspondence + Richardson / equilibrium falsifier on real platforms',
          'DESIGN.md section 5 C11'),
